@@ -241,4 +241,13 @@ def ctxOk (evs : List CtxEv) (flags : List Bool) : Bool :=
   | none => true
   | some ds => flags == ds.map (· == 0)
 
+/-- **the direction the property states**: after every event at which no disabling block is open, validation is in
+force.  What the switch does *inside* a disabling block (that it is off there) is the model's exact behaviour (`ctxOk`,
+compared by the correspondence) but not a demand of the property: a block that fails to disable refuses too much,
+it never lets an out-of-domain value in. -/
+def ctxInForce (evs : List CtxEv) (flags : List Bool) : Bool :=
+  match openDisables [] evs with
+  | none => true
+  | some ds => flags.length == ds.length && (ds.zip flags).all fun p => p.1 != 0 || p.2
+
 end Pyrtma.Validators
